@@ -99,9 +99,14 @@ def quoted_spans(s):
     return spans
 
 
+RECENT = []  # the last inputs given to the tokenizer in this process: what a call does must not depend on them, and a witness carries them
+
+
 def judge(s, rec, Tokenizer, TokenizerError, must_accept=False, origin="enum"):
     """Runs the tokenizer on s and applies the monitors.  Returns 'ok' | 'rejected' | 'violation'."""
-    case = {"s": s, "must_accept": must_accept, "origin": origin}
+    case = {"s": s, "must_accept": must_accept, "origin": origin, "before": list(RECENT)}
+    RECENT.append(s)
+    del RECENT[:-8]
     try:
         t = Tokenizer(s)
     except TokenizerError as e:
@@ -242,5 +247,11 @@ def run_shard(spec, rec):
 
 def replay(case, rec):
     from numbers_parser.tokenizer import Tokenizer, TokenizerError
+    for b in case.get("before", ()):
+        # the calls made before it in the same process (outcomes not judged here)
+        try:
+            Tokenizer(b)
+        except Exception:  # noqa: BLE001
+            pass
     judge(case["s"], rec, Tokenizer, TokenizerError, must_accept=case.get("must_accept", False), origin=case.get("origin", "replay"))
     rec.case(case["s"])
